@@ -13,6 +13,7 @@ CONSTANTS
   Others = {"r2"}
   FixF1 = TRUE
   FixF2 = TRUE
+  FixF3 = TRUE
 VIEW View
-INVARIANTS NoEarlyEvent NoLossExceptSecondReader NoStrandedEvent Ordered Reconstruct CacheFollows
+INVARIANTS NoEarlyEvent NoLoss NoStrandedEvent Ordered Reconstruct CacheFollows
 CHECK_DEADLOCK FALSE
